@@ -33,6 +33,8 @@ def conversation(rng, allowed):
             mech = rng.choice(['EXTERNAL', 'EXTERNAL', 'DBUS_COOKIE_SHA1', 'DBUS_COOKIE_SHA1', 'ANONYMOUS', 'OTHER', ''])
             hx = rng.choice(['none', 'ok', 'ok', 'ok', 'bad']) if mech else 'none'
             who = rng.choice(['same', 'same', 'other', 'garbage', 'empty']) if hx == 'ok' else 'empty'
+            if 'DBUS_COOKIE_SHA1' in allowed and rng.random() < 0.3:
+                mech, hx, who = 'DBUS_COOKIE_SHA1', 'ok', 'same'        # reach the challenge often enough
             if hx == 'ok' and who == 'empty':
                 hx = 'none'
             cmds.append({'c': 'auth', 'mech': mech, 'hex': hx, 'who': who if hx != 'none' else 'empty', 'resp': 'wrong', 'respkind': '', 'cookie': 0})
@@ -61,7 +63,7 @@ def run(ctx):
     import authdrv
     rng = random.Random(ctx.seed)
     recs, violations, texts = [], [], []
-    nconv = 500 if ctx.quick else 8000
+    nconv = 1500 if ctx.quick else 12000
     per = nconv // len(MECHSETS)
     for allowed in MECHSETS:
         home = tempfile.mkdtemp(prefix='vhome-')
